@@ -196,11 +196,77 @@ fn run_check(args: &[String]) -> i32 {
     let ctx = make_ctx(args, &prop);
     let t0 = std::time::Instant::now();
     let mut rng = Rng(ctx.seed ^ prop.bytes().fold(0u64, |a, b| a.wrapping_mul(131).wrapping_add(b as u64)));
-    let plan = props::plan(&ctx, &mut rng, ctx.tier);
+    let mut plan = props::plan(&ctx, &mut rng, ctx.tier);
+    // The source differs from the tree this machinery was last verified against: look harder where the change is.
+    // (a) code points and characters named in the changed lines become atoms of extra cases under the property's
+    //     own settings; (b) at the quick tier a seeded sample of the thorough plan is added.
+    let diff_atoms: Vec<String> = arg_after(args, "--diff-atoms")
+        .and_then(|p| std::fs::read_to_string(p).ok())
+        .map(|t| t.lines().filter_map(|l| u32::from_str_radix(l.trim(), 16).ok().and_then(char::from_u32)).map(|c| c.to_string()).collect())
+        .unwrap_or_default();
+    let mut escalation_note = String::new();
+    if !diff_atoms.is_empty() || args.iter().any(|a| a == "--source-changed") {
+        let mut rng_d = Rng(ctx.seed ^ 0x64696666);
+        let mut cfgs: Vec<Cfg> = vec![];
+        for c in &plan.cases {
+            if !cfgs.contains(&c.cfg) {
+                cfgs.push(c.cfg);
+            }
+            if cfgs.len() >= 400 {
+                break;
+            }
+        }
+        if cfgs.is_empty() {
+            cfgs.push(Cfg::new(0));
+        }
+        let mut extra = vec![];
+        for d in &diff_atoms {
+            let shapes: Vec<Vec<String>> = vec![
+                vec![d.clone()],
+                vec![format!("a{}", d), "a".into()],
+                vec![d.clone(), "a".into()],
+                vec![format!("{}{}", d, d)],
+                vec![format!("x{}{}{}y", d, d, d), format!("x{}{}y", d, d)],
+                vec![format!("{}b", d), format!("{}c", d), d.clone()],
+            ];
+            for sh in shapes {
+                for _ in 0..6 {
+                    let cfg = *rng_d.pick(&cfgs);
+                    extra.push(Case { tcs: sh.clone(), cfg });
+                }
+            }
+        }
+        for i in 0..diff_atoms.len() {
+            for j in i + 1..diff_atoms.len().min(i + 6) {
+                let cfg = *rng_d.pick(&cfgs);
+                extra.push(Case { tcs: vec![diff_atoms[i].clone(), diff_atoms[j].clone()], cfg });
+                let cfg = *rng_d.pick(&cfgs);
+                extra.push(Case { tcs: vec![format!("{}{}", diff_atoms[i], diff_atoms[j])], cfg });
+            }
+        }
+        let n_extra = extra.len();
+        plan.cases.extend(extra);
+        let mut n_deep = 0;
+        if ctx.tier == check::Tier::Quick && !matches!(prop.as_str(), "C10" | "C12" | "C14" | "C17" | "C09") {
+            let deep = props::plan(&ctx, &mut rng_d, check::Tier::Thorough);
+            let want = (plan.cases.len() * 3).min(deep.cases.len());
+            let mut idx: Vec<usize> = (0..deep.cases.len()).collect();
+            for k in 0..want {
+                let r = k + rng_d.below(idx.len() - k);
+                idx.swap(k, r);
+            }
+            for &i in idx.iter().take(want) {
+                plan.cases.push(deep.cases[i].clone());
+            }
+            n_deep = want;
+        }
+        escalation_note = format!("; the source differs from the last verified tree: {} case(s) built from {} code point(s) named in the changed lines and {} case(s) sampled from the thorough plan were added", n_extra, diff_atoms.len(), n_deep);
+    }
     let cli_bin = arg_after(args, "--cli-bin").unwrap_or_default();
     let py_ext = arg_after(args, "--py-ext");
     let py_script = format!("{}/py/pycheck.py", ctx.verif_dir);
     let mut explanation = plan.explanation.clone();
+    explanation.push_str(&escalation_note);
     let mut o = match prop.as_str() {
         "C10" => {
             explanation = "order/duplicates of the list, repeated build(), clone, setter order with build() in between, field-by-field configuration, 16 threads and fresh processes (fresh hash seeds) on a hash-order-sensitive family: every variant must equal a fresh builder's output; outputs compared with the Lean model".into();
